@@ -484,6 +484,12 @@ func truncate(limit int, s string) string {
 			s = s[i:]
 			break
 		}
+
+		// A validly encoded U+FFFD: count it like any other character.
+		count++
+		if count > limit {
+			return s[:i]
+		}
 	}
 
 	// Fast-path, no invalid input.
